@@ -45,7 +45,8 @@ Section Add.
     (k = KindD -> exists l, d = DDom l) ->
     (forall k' n, In n (declared k' prev) -> In n (declared k' prev')) ->
     In nm (declared k prev') ->
-    (forall x l, In (x, l) (decl_doms prev') -> starred x = false /\ nonempty x = true /\ (0 <= l)%Z) ->
+    (forall x l, In (x, l) (decl_doms prev') ->
+       starred x = false /\ nonempty x = true /\ (0 <= l)%Z /\ str_eqb x sPlus = false) ->
     (forall ri, In (SRxn ri) prev -> In (SRxn ri) prev') ->
     (forall j, j <> length (heap (r_st r)) ->
        attr_get j sq' = attr_get j (r_seq r) /\ attr_get j cn' = attr_get j (r_conc r) /\
@@ -53,10 +54,13 @@ Section Add.
     let i := length (heap (r_st r)) in
     let r' := mkR (hold (mk_new (r_st r) (cls_of k) nm key extra ch d) i) sq' cn' rt' in
     let acc' := with_dict k acc (dset nm i (dict_of k acc)) in
+    (forall n0 names sst, In (n0, (names, sst)) (decl_cplx prev') ->
+       In (n0, (names, sst)) (decl_cplx prev) \/
+       (Later r acc r' acc' -> exists conc, BuiltCplx cc r' acc' n0 names sst conc)) ->
     Core prev' r' acc' /\ Later r acc r' acc'.
   Proof.
-    intros C Hk F Hch HO HD Hdecl Hnm Hd' Hrx Hattr i r' acc'.
-    destruct C as [Csok Cattr Cheld Cdom Creg CrR Ckeys Cdecl CkR].
+    intros C Hk F Hch HO HD Hdecl Hnm Hd' Hrx Hattr i r' acc' Hcx.
+    destruct C as [Csok Cattr Cheld Cdom Creg CrR Ckeys Cdecl CkR Ccplx].
     pose proof (proj1 Csok) as I0. pose proof (ok_len _ _ (proj1 I0)) as Lc.
     assert (Hfresh : dlookup nm (dict_of k acc) = None).
     { rewrite <- (Creg k Hk). exact (proj1 F). }
@@ -106,6 +110,8 @@ Section Add.
     - exact Hd'.
     - intros j Hj. subst acc'. rewrite det_with, con_with in Hj. destruct (CkR j Hj) as [ri [H1 H2]].
       exists ri. split; [apply Hrx; exact H1 | eapply builtrxn_later; eauto].
+    - intros n0 names sst Hin. destruct (Hcx n0 names sst Hin) as [Ho|Hn]; [|apply Hn; exact L].
+      destruct (Ccplx n0 names sst Ho) as [conc Hb]. exists conc. eapply builtcplx_later; eauto.
   Qed.
 End Add.
 
